@@ -331,6 +331,16 @@ func init() {
 	racePkgs := []string{"util/hmap", "util/list", "util/queue"}
 	ignore := regexp.MustCompile(`\)\.(SetMax|SetCapacity|SetNullValue)$`)
 	register(&Scenario{Prop: "C10", Name: "lin", MaxSteps: 300000, Body: c10LinBody, After: c10LinAfter, RacePkgs: racePkgs, RaceIgnore: ignore})
+	if xs := c10CrossCells(); len(xs) > 0 {
+		var names []string
+		for _, x := range xs {
+			names = append(names, x.method)
+		}
+		// the merged-from instance is read by design without its lock being the caller's business:
+		// races whose entry point is the merge itself are outside "concurrent mix of point operations"
+		xignore := regexp.MustCompile(`\)\.(SetMax|SetCapacity|SetNullValue|` + strings.Join(names, "|") + `)$`)
+		register(&Scenario{Prop: "C10", Name: "cross", MaxSteps: 300000, Body: c10CrossBody, After: c10MethodsAfter, RacePkgs: racePkgs, RaceIgnore: xignore, Rare: 10})
+	}
 	cells := c10Cells()
 	register(&Scenario{Prop: "C10", Name: "methods", MaxSteps: 300000, Body: c10MethodsBody, After: c10MethodsAfter, Cells: len(cells), RacePkgs: racePkgs, RaceIgnore: ignore})
 }
@@ -426,6 +436,111 @@ func c10MethodsBody(rc *RunCtx) {
 func c10MethodsAfter(rc *RunCtx, res *simrt.Result) {
 	d := rc.Data.(*c10Data)
 	rc.Sample = d
+}
+
+// ---- facet A2: operations that take a second instance of the same type ----
+
+type c10CrossCell struct {
+	ti     int
+	method string
+}
+
+// c10CrossCells finds, by reflection, every method whose only parameter is another instance
+// of the receiver's own type (merges).
+func c10CrossCells() []c10CrossCell {
+	var out []c10CrossCell
+	for ti, t := range c10Types {
+		rt := reflect.TypeOf(t.New(0))
+		for i := 0; i < rt.NumMethod(); i++ {
+			m := rt.Method(i)
+			if m.Type.NumIn() == 2 && m.Type.In(1) == rt {
+				out = append(out, c10CrossCell{ti, m.Name})
+			}
+		}
+	}
+	return out
+}
+
+// c10CrossBody: two instances merged into each other (and into themselves) by concurrent
+// tasks, with point operations alongside. Nobody may end up waiting for a lock forever, and
+// each target must afterwards hold at least what both held before.
+func c10CrossBody(rc *RunCtx) {
+	xs := c10CrossCells()
+	x := xs[simrt.Choose(len(xs))]
+	t := c10Types[x.ti]
+	d := &c10Data{Type: t.Name, ti: x.ti, Variant: simrt.Choose(t.Variants)}
+	d.Label = t.Name + "." + x.method + "(cross)"
+	rc.Data, rc.Label = d, d.Label
+	a, b := t.New(d.Variant), t.New(d.Variant)
+	na, nb := 1+simrt.Choose(3), 1+simrt.Choose(3)
+	populate(a, na, 10)
+	populate(b, nb, 20)
+	objs := []interface{}{a, b}
+	call := func(name string, dst, src int) *simrt.Task {
+		op := &c10Op{Method: fmt.Sprintf("%s[%d<-%d]", x.method, dst, src)}
+		c10Record(d, op)
+		return simrt.GoNamed(name, func() {
+			op.Call = simrt.Stamp()
+			func() {
+				defer func() {
+					if r := recover(); r != nil {
+						op.Out = "panic:" + strings.SplitN(fmt.Sprint(r), "\n", 2)[0]
+					}
+				}()
+				reflect.ValueOf(objs[dst]).MethodByName(x.method).Call([]reflect.Value{reflect.ValueOf(objs[src])})
+			}()
+			op.Return = simrt.Stamp()
+		})
+	}
+	var tasks []*simrt.Task
+	tasks = append(tasks, call("merge-ab", 0, 1), call("merge-ba", 1, 0))
+	if simrt.Chance(1, 3) {
+		tasks = append(tasks, call("merge-aa", 0, 0))
+	}
+	if simrt.Chance(1, 2) {
+		tasks = append(tasks, simrt.GoNamed("sizes", func() {
+			for i := 0; i < 3; i++ {
+				invoke(objs[i%2], "Size", 0, 0)
+				invoke(objs[i%2], "Get", 10, 0)
+			}
+		}))
+	}
+	rc.NonTrivial = true
+	rc.Cells = append(rc.Cells, "cross:"+d.Label)
+	simrt.Settle(int64(5 * time.Second))
+	stuck := false
+	for _, tk := range tasks {
+		if !tk.Done() {
+			_, what := tk.Blocked()
+			d.Waiting = what
+			stuck = true
+			rc.Violate("C10", "blocks-forever", "blocked:"+d.Label, fmt.Sprintf("%s: a task of {a.%s(b), b.%s(a), a.%s(a), point reads} did not return: blocked on %s", d.Label, x.method, x.method, x.method, what))
+			break
+		}
+	}
+	for _, op := range d.Ops {
+		if strings.HasPrefix(op.Out, "panic:") {
+			d.Panicked = op.Out
+			rc.Violate("C10", "corruption", "panic:"+d.Label, d.Label+": "+op.Out)
+		}
+	}
+	if stuck {
+		return
+	}
+	// the statement does not make a merge atomic with respect to mutations of its source (the
+	// source is enumerated without its lock), so only the target's own prior content is required
+	// (an earlier version of this oracle also demanded the source's keys: a false alarm, removed)
+	for i, o := range objs {
+		lo, n := 10, na
+		if i == 1 {
+			lo, n = 20, nb
+		}
+		for k := lo; k < lo+n; k++ {
+			if invoke(o, "ContainsKey", k, 0) != "true" {
+				rc.Violate("C10", "corruption", "merge-result:"+d.Label, fmt.Sprintf("%s: after the merges instance %d lacks its own key %d", d.Label, i, k))
+			}
+		}
+	}
 }
 
 // ---- facet B: linearizability ----
